@@ -126,21 +126,24 @@ def readU32 (cfg : RdCfg) (rd : Rd) : R (Nat × Rd) :=
   | .error e => .error e
   | .ok (b, rd) => .ok (be32 b, rd)
 
-/-- Switches for the two one-line repairs discussed in Props/C14.lean.  The
-code in /repo is `Fix.none`. -/
+/-- The two code variants of `parseString` / the gate loop.  The code in /repo
+is `Fix.both` since the commits 7309cfb (gate count guard) and a93bbfc
+(`io.ReadFull`); `Fix.none` is the OLD code before them, kept so that the
+defects it had stay stated (Props/C14.lean, `C14_old_…`).  The harness probes
+which variant it is running against and the check requires `Fix.both`. -/
 structure Fix where
-  /-- `parseString` uses `io.ReadFull(r, buf)` instead of `r.Read(buf)`. -/
+  /-- `parseString` uses `io.ReadFull(r, buf)` (old: one `r.Read(buf)`). -/
   readFullStrings : Bool
-  /-- `ParseMPCLC` tests `gate >= NumGates` at the top of the gate loop (as
-  `ParseBristol` does). -/
+  /-- `ParseMPCLC` tests `gate >= len(gates)` after `ReadByte`, before the
+  `switch` (old: no test). -/
   guardGates : Bool
 
 def Fix.none : Fix := ⟨false, false⟩
 def Fix.both : Fix := ⟨true, true⟩
 
-/-- `parseString` (circuit/parser.go): length, then ONE `r.Read(buf)` into a
-zeroed buffer of that length; a short read leaves the tail zero and the stream
-position behind. -/
+/-- `parseString` (circuit/parser.go): length, then `io.ReadFull(r, buf)`.
+Old variant: ONE `r.Read(buf)` into a zeroed buffer of that length; a short
+read left the tail zero and the stream position behind. -/
 def parseString (cfg : RdCfg) (fx : Fix) (rd : Rd) : R (Bytes × Rd) :=
   match readU32 cfg rd with
   | .error e => .error e
@@ -439,7 +442,8 @@ def seenInit (nw : Nat) (inputWires : Int) : R (Store Bool) :=
 /-- The gate loop of `ParseMPCLC`, one record per iteration, starting at gate
 index `gate`.  Returns the gates read and the final seen-set; the caller
 compares the count with the header.  The store `gates[gate] = …` into the slice
-of length `ng` is the bound test that yields `panic`.  First argument:
+of length `ng` is the bound test that yields `panic`; the "too many gates" test
+in front of it makes it unreachable (old variant: no such test).  First argument:
 recursion bound (every iteration consumes ≥ 1 byte). -/
 def gateLoop (cfg : RdCfg) (fx : Fix) (ng : Nat) : Nat → Nat → Store Bool → Rd → R (List Gate × Store Bool)
   | 0, _, _, _ => .error .fuel
